@@ -251,13 +251,42 @@ def r_decision(c):
     fd = m.func("pytato.utils.are_shape_components_equal")
     where = m.loc("pytato.utils", fd)
     d1, d2 = fd.args.args[0].arg, fd.args.args[1].arg
-    rets = [r for r in ast.walk(fd) if isinstance(r, ast.Return)]
-    last = max(rets, key=lambda r: r.lineno)
-    dec = find(last, "$aff.is_cst() and $aff.get_constant_val().is_zero()")
-    dec = [e for e in dec if e["@node"] is last.value]
+    # The function as a decision table (early returns and `else` alike): besides the
+    # integer fast path, the only ways out are `A.is_cst() and A.get_constant_val()
+    # .is_zero()`, or the same thing in two steps (`if not A.is_cst(): return False`
+    # / `return A.get_constant_val().is_zero()`)
+    from pta.pat import expr_is
+    rows = m.returns_by_condition(fd)
+    if rows is None:
+        raise AnalysisError("are_shape_components_equal: a return inside a loop/try")
     diffs = find(fd, f"$d = {d1} - {d2}") + find(fd, f"$d = {d2} - {d1}")
     dv = diffs[0]["$d"] if len(diffs) == 1 else "?"
-    ok = len(dec) == 1 and has(fd, f"{dec[0]['$aff']} = ShapeToISLExpressionMapper($sp)({dv})")
+    fast_txt = (f"isinstance({d1}, INT_CLASSES) and isinstance({d2}, INT_CLASSES)",
+                f"isinstance({d2}, INT_CLASSES) and isinstance({d1}, INT_CLASSES)")
+    affs, whole, step_f, step_t, row_ok = set(), False, False, False, {}
+    for conds, v in rows:
+        in_fast = any(t in fast_txt and pol for t, pol in conds)
+        rest = [(t, pol) for t, pol in conds if t not in fast_txt]
+        ok_row = False
+        if in_fast:
+            ok_row = ast.unparse(v) in (f"{d1} == {d2}", f"{d2} == {d1}")
+        elif not rest and isinstance(v, ast.BoolOp):
+            e_ = find(ast.Expr(value=v), "$aff.is_cst() and $aff.get_constant_val().is_zero()")
+            if e_ and e_[0]["@node"] is v:
+                ok_row = whole = True
+                affs.add(e_[0]["$aff"])
+        elif len(rest) == 1 and rest[0][0].endswith(".is_cst()"):
+            a_ = rest[0][0][:-len(".is_cst()")]
+            if not rest[0][1] and isinstance(v, ast.Constant) and v.value is False:
+                ok_row = step_f = True
+                affs.add(a_)
+            elif rest[0][1] and ast.unparse(v) == f"{a_}.get_constant_val().is_zero()":
+                ok_row = step_t = True
+                affs.add(a_)
+        row_ok[id(v)] = (ok_row, v)
+    aff = affs.pop() if len(affs) == 1 else "?"
+    ok = (whole or (step_f and step_t)) and has(
+        fd, f"{aff} = ShapeToISLExpressionMapper($sp)({dv})")
     c.check(ok, "R16-DECISION", "utils.are_shape_components_equal",
             "true-only-for-constant-zero-difference", where,
             "the decision is no longer `difference is constant AND that constant is "
@@ -282,13 +311,11 @@ def r_decision(c):
     # integer equality under the isinstance guard, or the affine test.  Any other
     # return (a shortcut on parameter sets, ranks, identity, ...) answers without
     # asking whether the difference is identically zero
-    from pta.order import _own_nodes
-    for r in [x for x in _own_nodes(fd) if isinstance(x, ast.Return)]:
-        in_fast = fast and any(r in list(ast.walk(s_)) for s_ in fast[0].body)
-        is_final = r is last
-        c.check(in_fast or is_final, "R16-DECISION", "utils.are_shape_components_equal",
-                f"return-is-an-exact-decider:{m.frag(r, 40)}", m.loc("pytato.utils", r),
-                f"`{m.frag(r, 60)}` decides equality of two shape components without "
+    for ok_row, v in row_ok.values():
+        c.check(ok_row, "R16-DECISION", "utils.are_shape_components_equal",
+                f"return-is-an-exact-decider:return {m.frag(v, 33)}",
+                m.loc("pytato.utils", v) if hasattr(v, "lineno") else where,
+                f"`return {m.frag(v, 60)}` decides equality of two shape components without "
                 "going through integer equality or the zero-difference test: "
                 "components that are equal for every valuation can be declared "
                 "different (or vice versa)")
